@@ -1,5 +1,10 @@
 package c04
 
-import "verifharness/suites/asys"
+import (
+	"verifharness/suites/asys"
+	// "Restart replaces the instance after a delay within the configured bounds": the delay OneForOne hands
+	// to time.AfterFunc is chrono.StandardExponentialBackoff; its suites (property C18) are part of C04's check
+	_ "verifharness/suites/c18"
+)
 
 func init() { asys.Register() }
